@@ -24,34 +24,40 @@ open Hv.BlockStore
 /-- the fault has cleared: every further operation succeeds -/
 def cleared (s : FSt) : FSt := { s with rs := [], failed := false }
 
-/-- a flush under the results `rs`, then (fault cleared) `items` are written and synced -/
-def afterFault (c : Cfg) (fc : FCfg) (mk : Mk) (w : WSt) (d : Disk) (rs : List Res) (items : List (Op × Nat)) : FSt :=
-  syncWF c fc mk (addManyWF fc mk (cleared (flushWF fc mk { w := w, d := d, rs := rs })) items)
+/-- an outage: the flush of the buffer and the writes `during` all run under the results `rs`
+    (every flush they trigger may fail, again and again — the callers only log the errors);
+    then the fault clears, `after` is written and synced -/
+def afterFault (c : Cfg) (fc : FCfg) (mk : Mk) (w : WSt) (d : Disk) (rs : List Res) (during after : List (Op × Nat)) : FSt :=
+  syncWF c fc mk (addManyWF fc mk (cleared (addManyWF fc mk (flushWF fc mk { w := w, d := d, rs := rs }) during)) after)
 
-/-- The full-strength statement. -/
+/-- The full-strength statement.  The buffer `w.buf` is arbitrary — in particular it may hold more
+    than `maxEnts` entries, which is what a series of failed flushes leaves behind — and the
+    encoder is only assumed to work for batches that fit the 16-bit count field (`MkOk`). -/
 def Holds (c : Cfg) (fc : FCfg) : Prop :=
   ∀ (mk : Mk), MkOk mk → ∀ (nl : Nat) (bs : List Block), (∀ b ∈ bs, b.WF) →
-  ∀ (w : WSt) (d : Disk), WInv d w (fileCells nl bs) → w.nl = nl → w.dirty = false → w.buf ≠ [] →
-  ∀ (rs : List Res) (items : List (Op × Nat)), items ≠ [] →
-    ∃ f, (afterFault c fc mk w d rs items).d.get w.path = some f ∧
-      loadEntries c.r f = entsOf bs ++ w.buf ++ items.map (·.1)
+  ∀ (w : WSt) (d : Disk), WInv d w (fileCells nl bs) → w.nl = nl → w.dirty = false →
+  ∀ (rs : List Res) (during after : List (Op × Nat)),
+    ∃ f, (afterFault c fc mk w d rs during after).d.get w.path = some f ∧
+      loadEntries c.r f = entsOf bs ++ w.buf ++ during.map (·.1) ++ after.map (·.1)
 
 /-! ### After the fault has cleared the writer is the plain writer -/
 
 /-- from a writer at the end of a file with an intact header: write `items`, `Sync`, load -/
 theorem finish_clean (c : Cfg) (fc : FCfg) (mk : Mk) (hmk : MkOk mk) (nl : Nat) (bs1 : List Block)
     (hwf : ∀ b ∈ bs1, b.WF) (s : FSt) (hinv : WInv s.d s.w (fileCells nl bs1)) (hdirty : s.w.dirty = false)
-    (items : List (Op × Nat)) :
+    (hlen : s.w.buf.length < maxEnts) (items : List (Op × Nat)) :
     ∃ f, (syncWF c fc mk (addManyWF fc mk (cleared s) items)).d.get s.w.path = some f ∧
       loadEntries c.r f = entsOf bs1 ++ s.w.buf ++ items.map (·.1) := by
-  have h1 := addManyWF_nofault fc mk items (cleared s) rfl hdirty
+  have h1 := addManyWF_nofault fc mk items (cleared s) rfl hdirty (Or.inr hlen)
+  obtain ⟨a, ha, pa⟩ := addManyW_spec mk hmk items s.d s.w _ hinv hlen
   have hd2 : (addManyWF fc mk (cleared s) items).w.dirty = false := by
     rw [h1.1, addManyW_dirty]; exact hdirty
-  have h2 := syncWF_nofault_disk c fc mk (addManyWF fc mk (cleared s) items) h1.2.2 hd2
+  have hl2 : (addManyWF fc mk (cleared s) items).w.buf.length ≤ maxEnts := by
+    rw [h1.1]; exact Nat.le_of_lt pa.cnt
+  have h2 := syncWF_nofault_disk c fc mk (addManyWF fc mk (cleared s) items) h1.2.2 hd2 (Or.inr hl2)
   rw [h2, h1.1, h1.2.1]
   simp only [cleared]
-  obtain ⟨a, ha, pa⟩ := addManyW_spec mk hmk items s.d s.w _ hinv
-  obtain ⟨nbs, hn, hnwf, hget⟩ := syncW_spec c mk hmk _ _ _ pa.inv
+  obtain ⟨nbs, hn, hnwf, hget⟩ := syncW_spec c mk hmk _ _ _ pa.inv (Nat.le_of_lt pa.cnt)
   rw [pa.path] at hget
   refine ⟨_, hget, ?_⟩
   have hall : ∀ b ∈ bs1 ++ a ++ nbs, b.WF := by
@@ -82,32 +88,35 @@ theorem failed_write_drops_entries (c : Cfg) (fc : FCfg) (h1 : fc.clearsBufferBe
     (h2 : fc.rollsBackFailedBlock = false) : ¬ Holds c fc := by
   intro hh
   -- empty file, one buffered entry, the header write of its block fails with nothing transferred
-  let mk0 : Mk := fun es => { hdr := [1, 0, 0, 0, 0, 0, 0, 0, 0, 0, 0, 0, 0, 0, 0, 0], plen := 1, ents := es }
-  have hmk : MkOk mk0 := fun es _ => ⟨⟨rfl, rfl, Nat.one_pos⟩, rfl⟩
+  let mk0 : Mk := mkP 1
+  have hmk : MkOk mk0 := mkP_ok 1 Nat.one_pos
   let w : WSt := { path := .main, pos := 64, nl := 0, buf := [Op.put 1 1], bufSize := 10, bs := 100 }
   let d : Disk := { main := some (fileCells 0 []), temp := none }
   have hF : (fileCells 0 []).length = 64 := by simp [fileCells, render, nmCells]
   have hinv : WInv d w (fileCells 0 []) := ⟨rfl, by simp [w, hF], fileCells_hdr 0 []⟩
-  obtain ⟨f, hget, hload⟩ := hh mk0 hmk 0 [] (by simp) w d hinv rfl rfl (by simp [w]) [.err] [(Op.put 2 2, 10)] (by simp)
+  obtain ⟨f, hget, hload⟩ := hh mk0 hmk 0 [] (by simp) w d hinv rfl rfl [.err] [] [(Op.put 2 2, 10)]
   -- the failed flush: buffer emptied, file and offset unchanged
   have hfl : flushWF fc mk0 { w := w, d := d, rs := [.err] } =
-      { w := { w with buf := [], bufSize := 0 }, d := d,
+      { w := { w with buf := [], bufSize := 0, szs := [] }, d := d,
         ops := [(.write .main 64 (hdrCells (mk0 [Op.put 1 1])), .err)], rs := [], failed := true } := by
     have hd : d.applyRes (.write .main 64 (hdrCells (mk0 [Op.put 1 1]))) .err = d := by
       simp only [Disk.applyRes, Res.written, List.take_zero]
       exact apply_write_nil d .main (fileCells 0 []) rfl 64 (by rw [hF]; exact Nat.le_refl _)
-    simp [flushWF, w, FSt.issue, nextRes, Res.isOk, h1, h2, hd, Res.written]
-  have hinv2 : WInv d { w with buf := [], bufSize := 0 } (fileCells 0 []) := ⟨rfl, by simp [w, hF], fileCells_hdr 0 []⟩
+    simp [flushWF, flushBlocks, writeBlockF, w, FSt.issue, nextRes, Res.isOk, h1, h2, hd, Res.written, maxEnts]
+  have hinv2 : WInv d { w with buf := [], bufSize := 0, szs := [] } (fileCells 0 []) := ⟨rfl, by simp [w, hF], fileCells_hdr 0 []⟩
   obtain ⟨f', hget', hload'⟩ := finish_clean c fc mk0 hmk 0 [] (by simp)
-    { w := { w with buf := [], bufSize := 0 }, d := d,
-      ops := [(.write .main 64 (hdrCells (mk0 [Op.put 1 1])), .err)], rs := [], failed := true } hinv2 rfl [(Op.put 2 2, 10)]
-  simp only [afterFault, hfl] at hget
+    { w := { w with buf := [], bufSize := 0, szs := [] }, d := d,
+      ops := [(.write .main 64 (hdrCells (mk0 [Op.put 1 1])), .err)], rs := [], failed := true } hinv2 rfl maxEnts_pos
+      [(Op.put 2 2, 10)]
+  have hnil : ∀ t : FSt, addManyWF fc mk0 t [] = t := fun _ => rfl
+  simp only [afterFault, hnil, hfl] at hget
   rw [hget'] at hget
   cases hget
   rw [hload'] at hload
   simp [entsOf, w] at hload
 
-/-! ### The repaired flush: roll a failed block back, retry a failed rollback before the next block -/
+/-! ### The repaired flush: a failed block is rolled back, a failed rollback is retried before the
+    next block, and no block gets more than `maxEnts` entries -/
 
 theorem issue_eq (s : FSt) (op : FsOp) :
     s.issue op = ({ s with d := s.d.applyRes op (nextRes s.rs).1, ops := s.ops ++ [(op, (nextRes s.rs).1)],
@@ -127,20 +136,9 @@ theorem get_truncate_failed (d : Disk) (p : Path) (n : Nat) (r : Res) (h : r.isO
     d.applyRes (.truncate p n) r = d := by
   simp [Disk.applyRes, h]
 
-theorem flushWF_path (fc : FCfg) (h1 : fc.rollsBackFailedBlock = true) (h2 : fc.restoresOffsetAfterHeader = true)
-    (mk : Mk) (w : WSt) (d : Disk) (hdirty : w.dirty = false) (hb : w.buf ≠ []) (rs : List Res) :
-    (flushWF fc mk { w := w, d := d, rs := rs }).w.path = w.path := by
-  unfold flushWF
-  simp only [hdirty, Bool.and_false, Bool.false_eq_true, if_false, Bool.not_true, issue_eq, h1, h2, if_true]
-  by_cases k1 : (nextRes rs).1.isOk = true
-  · simp only [k1, Bool.not_true, Bool.false_eq_true, if_false]
-    by_cases k2 : (nextRes (nextRes rs).2).1.isOk = true
-    · simp only [k2, Bool.not_true, Bool.false_eq_true, if_false]
-      by_cases k3 : (nextRes (nextRes (nextRes rs).2).2).1.isOk = true
-      · simp only [k3, Bool.not_true, Bool.false_eq_true, if_false]
-      · simp only [k3, Bool.not_false, if_true]
-    · simp only [k2, Bool.not_false, if_true]
-  · simp only [k1, Bool.not_false, if_true]
+theorem isOk_eq {r : Res} (h : r.isOk = true) : r = .ok := by cases r <;> simp_all [Res.isOk]
+
+theorem nextRes_nil : nextRes [] = (Res.ok, []) := rfl
 
 /-- writer at the logical end `F` of its file, possibly with a fragment `junk` it still has to cut off -/
 structure DInv (d : Disk) (w : WSt) (F junk : List Cell) : Prop where
@@ -154,245 +152,439 @@ theorem DInv.toWInv {d : Disk} {w : WSt} {F junk : List Cell} (h : DInv d w F ju
   subst this
   exact ⟨by simpa using h.file, h.atEnd, h.hdr⟩
 
-/-- **The repaired flush under arbitrary results.**  Either the whole block is on disk and the
-    buffer is empty, or the file is logically unchanged (at most a fragment behind its end that
-    the writer knows about) and the buffer is intact.  No hypothesis on the results: a rollback
-    truncate that fails is remembered (`dirty`). -/
-theorem repaired_flush (fc : FCfg) (h1 : fc.rollsBackFailedBlock = true) (h2 : fc.restoresOffsetAfterHeader = true)
-    (mk : Mk) (nl : Nat) (bs : List Block) (w : WSt) (d : Disk)
-    (hinv : WInv d w (fileCells nl bs)) (hdirty : w.dirty = false) (hb : w.buf ≠ []) (rs : List Res) :
-    ((flushWF fc mk { w := w, d := d, rs := rs }).w.buf = [] ∧
-      (flushWF fc mk { w := w, d := d, rs := rs }).w.dirty = false ∧
-      WInv (flushWF fc mk { w := w, d := d, rs := rs }).d (flushWF fc mk { w := w, d := d, rs := rs }).w
-        (fileCells nl (bs ++ [mk w.buf]))) ∨
-    ((flushWF fc mk { w := w, d := d, rs := rs }).w.buf = w.buf ∧
-      ∃ junk, DInv (flushWF fc mk { w := w, d := d, rs := rs }).d (flushWF fc mk { w := w, d := d, rs := rs }).w
-        (fileCells nl bs) junk) := by
+theorem _root_.Hv.BlockStore.WInv.toDInv {d : Disk} {w : WSt} {F : List Cell} (h : WInv d w F) : DInv d w F [] :=
+  ⟨by simpa using h.file, h.atEnd, h.hdr, fun _ => rfl⟩
+
+/-- **One block of the repaired flush under arbitrary results.**  Either the whole block is on
+    disk and exactly the rest stays buffered, or the file is logically unchanged (at most a
+    fragment behind its end that the writer knows about) and the buffer is intact.  No hypothesis
+    on the results: a rollback truncate that fails is remembered (`dirty`). -/
+theorem writeBlockF_spec (fc : FCfg) (h1 : fc.rollsBackFailedBlock = true) (h2 : fc.restoresOffsetAfterHeader = true)
+    (mk : Mk) (s : FSt) (F : List Cell) (hinv : WInv s.d s.w F) (hdirty : s.w.dirty = false)
+    (chunk rest : List Op) (restSzs : List Nat) (hbuf : s.w.buf = chunk ++ rest) :
+    ∀ r, r = writeBlockF fc mk s chunk rest restSzs →
+    r.1.w.path = s.w.path ∧ r.1.w.nl = s.w.nl ∧
+    ((r.1.w.buf = rest ∧ r.1.w.dirty = false ∧ WInv r.1.d r.1.w (F ++ blockCells (mk chunk))) ∨
+     (r.2 = false ∧ r.1.w.buf = chunk ++ rest ∧ ∃ junk, DInv r.1.d r.1.w F junk)) ∧
+    (s.rs = [] → r.2 = true ∧ r.1.rs = [] ∧ r.1.failed = s.failed) := by
+  intro r hr
+  subst hr
   have hF := hinv.atEnd
   have hfile := hinv.file
-  have hblk : fileCells nl (bs ++ [mk w.buf]) = fileCells nl bs ++ blockCells (mk w.buf) := by
-    simp [fileCells, render_append, render, List.append_assoc]
   -- what the rollback leaves, whatever the truncate's result
-  have roll : ∀ (d1 : Disk) (x : List Cell) (r : Res), d1.get w.path = some (fileCells nl bs ++ x) →
-      ∃ junk, DInv (d1.applyRes (.truncate w.path w.pos) r)
-        { path := w.path, pos := w.pos, nl := w.nl, buf := w.buf, bufSize := w.bufSize, bs := w.bs, dirty := !r.isOk }
-        (fileCells nl bs) junk := by
-    intro d1 x r hd1
+  have roll : ∀ (d1 : Disk) (x : List Cell) (r : Res) (w' : WSt), d1.get s.w.path = some (F ++ x) →
+      w'.path = s.w.path → w'.pos = s.w.pos → w'.nl = s.w.nl → w'.dirty = !r.isOk →
+      ∃ junk, DInv (d1.applyRes (.truncate s.w.path s.w.pos) r) w' F junk := by
+    intro d1 x r w' hd1 hp hpos hnl hdt
     by_cases hr : r.isOk = true
-    · have : r = .ok := by cases r <;> simp_all [Res.isOk]
+    · have := isOk_eq hr
       subst this
-      refine ⟨[], ?_, hF, hinv.hdr, fun _ => rfl⟩
-      rw [hF, List.append_nil]; exact get_truncate_back d1 w.path _ x hd1
+      refine ⟨[], ?_, by rw [hpos]; exact hF, by rw [hnl]; exact hinv.hdr, fun _ => rfl⟩
+      rw [hp, hF, List.append_nil]; exact get_truncate_back d1 s.w.path _ x hd1
     · have hr' : r.isOk = false := by simpa using hr
-      refine ⟨x, ?_, hF, hinv.hdr, ?_⟩
-      · rw [get_truncate_failed _ _ _ _ hr']; exact hd1
-      · intro hcl; simp [hr'] at hcl
-  unfold flushWF
-  simp only [hdirty, Bool.and_false, Bool.false_eq_true, if_false, Bool.not_true, issue_eq, h1, h2, if_true]
-  · by_cases k1 : (nextRes rs).1.isOk = true
-    · simp only [k1, Bool.not_true, Bool.false_eq_true, if_false]
-      have e1 : (nextRes rs).1 = .ok := by cases h : (nextRes rs).1 <;> simp_all [Res.isOk]
-      have t16 : (hdrCells (mk w.buf)).take (Res.ok.written (hdrCells (mk w.buf)).length) = hdrCells (mk w.buf) :=
+      refine ⟨x, ?_, by rw [hpos]; exact hF, by rw [hnl]; exact hinv.hdr, ?_⟩
+      · rw [get_truncate_failed _ _ _ _ hr', hp]; exact hd1
+      · intro hcl; rw [hdt] at hcl; simp [hr'] at hcl
+  unfold writeBlockF
+  simp only [issue_eq, h1, h2, if_true]
+  by_cases k1 : (nextRes s.rs).1.isOk = true
+  · simp only [k1, Bool.not_true, Bool.false_eq_true, if_false]
+    have e1 := isOk_eq k1
+    have t16 : (hdrCells (mk chunk)).take (Res.ok.written (hdrCells (mk chunk)).length) = hdrCells (mk chunk) :=
+      List.take_of_length_le (by simp [Res.written])
+    have g1 := get_applyRes_write s.d s.w.path _ hfile (hdrCells (mk chunk)) .ok
+    rw [← hF, t16] at g1
+    have hl : (F ++ hdrCells (mk chunk)).length = s.w.pos + 16 := by simp [hF]
+    by_cases k2 : (nextRes (nextRes s.rs).2).1.isOk = true
+    · simp only [k2, Bool.not_true, Bool.false_eq_true, if_false]
+      have e2 := isOk_eq k2
+      have tp : (payCells (mk chunk)).take (Res.ok.written (payCells (mk chunk)).length) = payCells (mk chunk) :=
         List.take_of_length_le (by simp [Res.written])
-      have g1 := get_applyRes_write d w.path _ hfile (hdrCells (mk w.buf)) .ok
-      rw [← hF, t16] at g1
-      have hl : (fileCells nl bs ++ hdrCells (mk w.buf)).length = w.pos + 16 := by simp [hF]
-      by_cases k2 : (nextRes (nextRes rs).2).1.isOk = true
-      · simp only [k2, Bool.not_true, Bool.false_eq_true, if_false]
-        left
-        have e2 : (nextRes (nextRes rs).2).1 = .ok := by cases h : (nextRes (nextRes rs).2).1 <;> simp_all [Res.isOk]
-        have tp : (payCells (mk w.buf)).take (Res.ok.written (payCells (mk w.buf)).length) = payCells (mk w.buf) :=
-          List.take_of_length_le (by simp [Res.written])
-        have g2 := get_applyRes_write _ w.path _ g1 (payCells (mk w.buf)) .ok
-        rw [hl, tp] at g2
-        have g2' : ((d.applyRes (.write w.path w.pos (hdrCells (mk w.buf))) .ok).applyRes
-            (.write w.path (w.pos + 16) (payCells (mk w.buf))) .ok).get w.path = some (fileCells nl (bs ++ [mk w.buf])) := by
-          rw [g2, hblk]; simp [blockCells, List.append_assoc]
-        have hh : HdrOk (fileCells nl (bs ++ [mk w.buf])) w.nl := by
-          rw [hblk]; exact hinv.hdr.append _
-        have g3 : ∀ r : Res, (((d.applyRes (.write w.path w.pos (hdrCells (mk w.buf))) .ok).applyRes
-            (.write w.path (w.pos + 16) (payCells (mk w.buf))) .ok).applyRes (.write w.path 0 (fhCells w.nl)) r).get w.path =
-              some (fileCells nl (bs ++ [mk w.buf])) := by
-          intro r
-          have := Disk.apply_write_get _ w.path w.path 0 ((fhCells w.nl).take (r.written (fhCells w.nl).length)) _ g2'
-          rw [splice_hdr_torn hh] at this
-          simpa [Disk.applyRes] using this
-        have hpos : w.pos + 16 + (mk w.buf).plen = (fileCells nl (bs ++ [mk w.buf])).length := by
-          rw [hblk]; simp [hF]; omega
-        rw [e1, e2]
-        by_cases k3 : (nextRes (nextRes (nextRes rs).2).2).1.isOk = true
-        · simp only [k3, Bool.not_true, Bool.false_eq_true, if_false]
-          exact ⟨trivial, trivial, ⟨g3 _, hpos, hh⟩⟩
-        · simp only [k3, Bool.not_false, if_true]
-          exact ⟨trivial, trivial, ⟨g3 _, hpos, hh⟩⟩
-      · -- the payload write failed
-        simp only [k2, Bool.not_false, if_true]
-        right
-        have g2 := get_applyRes_write _ w.path _ g1 (payCells (mk w.buf)) (nextRes (nextRes rs).2).1
-        rw [hl, List.append_assoc] at g2
-        rw [e1]
-        obtain ⟨junk, hj⟩ := roll _ _ (nextRes (nextRes (nextRes rs).2).2).1 g2
-        exact ⟨trivial, junk, hj⟩
-    · -- the header write failed
-      simp only [k1, Bool.not_false, if_true]
-      right
-      have g1 := get_applyRes_write d w.path _ hfile (hdrCells (mk w.buf)) (nextRes rs).1
-      rw [← hF] at g1
-      obtain ⟨junk, hj⟩ := roll _ _ (nextRes (nextRes rs).2).1 g1
-      exact ⟨trivial, junk, hj⟩
+      have g2 := get_applyRes_write _ s.w.path _ g1 (payCells (mk chunk)) .ok
+      rw [hl, tp] at g2
+      have g2' : ((s.d.applyRes (.write s.w.path s.w.pos (hdrCells (mk chunk))) .ok).applyRes
+          (.write s.w.path (s.w.pos + 16) (payCells (mk chunk))) .ok).get s.w.path = some (F ++ blockCells (mk chunk)) := by
+        rw [g2]; simp [blockCells, List.append_assoc]
+      have hh : HdrOk (F ++ blockCells (mk chunk)) s.w.nl := hinv.hdr.append _
+      have g3 : ∀ r : Res, (((s.d.applyRes (.write s.w.path s.w.pos (hdrCells (mk chunk))) .ok).applyRes
+          (.write s.w.path (s.w.pos + 16) (payCells (mk chunk))) .ok).applyRes (.write s.w.path 0 (fhCells s.w.nl)) r).get s.w.path =
+            some (F ++ blockCells (mk chunk)) := by
+        intro r
+        have := Disk.apply_write_get _ s.w.path s.w.path 0 ((fhCells s.w.nl).take (r.written (fhCells s.w.nl).length)) _ g2'
+        rw [splice_hdr_torn hh] at this
+        simpa [Disk.applyRes] using this
+      have hpos : s.w.pos + 16 + (mk chunk).plen = (F ++ blockCells (mk chunk)).length := by
+        simp [hF]; omega
+      rw [e1, e2]
+      by_cases k3 : (nextRes (nextRes (nextRes s.rs).2).2).1.isOk = true
+      · simp only [k3, Bool.not_true, Bool.false_eq_true, if_false]
+        refine ⟨trivial, trivial, Or.inl ⟨trivial, hdirty, ⟨g3 _, hpos, hh⟩⟩, ?_⟩
+        intro hrs; simp [hrs, nextRes_nil]
+      · simp only [k3, Bool.not_false, if_true]
+        refine ⟨trivial, trivial, Or.inl ⟨trivial, hdirty, ⟨g3 _, hpos, hh⟩⟩, ?_⟩
+        intro hrs; rw [hrs] at k3; simp [nextRes_nil, Res.isOk] at k3
+    · -- the payload write failed
+      simp only [k2, Bool.not_false, if_true]
+      have g2 := get_applyRes_write _ s.w.path _ g1 (payCells (mk chunk)) (nextRes (nextRes s.rs).2).1
+      rw [hl, List.append_assoc] at g2
+      rw [e1]
+      refine ⟨trivial, trivial, Or.inr ⟨trivial, hbuf, roll _ _ (nextRes (nextRes (nextRes s.rs).2).2).1 _ g2 rfl rfl rfl rfl⟩, ?_⟩
+      intro hrs; rw [hrs] at k2; simp [nextRes_nil, Res.isOk] at k2
+  · -- the header write failed
+    simp only [k1, Bool.not_false, if_true]
+    have g1 := get_applyRes_write s.d s.w.path _ hfile (hdrCells (mk chunk)) (nextRes s.rs).1
+    rw [← hF] at g1
+    refine ⟨trivial, trivial, Or.inr ⟨trivial, hbuf, roll _ _ (nextRes (nextRes s.rs).2).1 _ g1 rfl rfl rfl rfl⟩, ?_⟩
+    intro hrs; rw [hrs] at k1; simp [nextRes_nil, Res.isOk] at k1
 
-/-- fault-free flush from a state that may still carry a fragment: it is cut off first -/
-def undirty (s : FSt) : FSt :=
-  { s with d := s.d.applyRes (.truncate s.w.path s.w.pos) .ok, w := { s.w with dirty := false }, ops := s.ops ++ [(.truncate s.w.path s.w.pos, .ok)] }
+/-- what a step of the repaired writer guarantees, whatever the results: whole well-formed blocks
+    were appended, at most a known fragment lies behind them, nothing left the buffer unwritten -/
+structure FPost (s r : FSt) (F : List Cell) (nbs : List Block) (junk : List Cell) : Prop where
+  wf : ∀ b ∈ nbs, b.WF
+  inv : DInv r.d r.w (F ++ render nbs) junk
+  path : r.w.path = s.w.path
+  nl : r.w.nl = s.w.nl
+  clear : s.rs = [] → r.rs = [] ∧ r.failed = s.failed
 
-theorem flushWF_dirty_ok (fc : FCfg) (h1 : fc.rollsBackFailedBlock = true) (mk : Mk) (s : FSt) (h : s.rs = [])
-    (hd : s.w.dirty = true) : flushWF fc mk s = flushWF fc mk (undirty s) := by
-  unfold undirty
-  conv => lhs; unfold flushWF
-  conv => rhs; unfold flushWF
-  simp [h1, hd, FSt.issue, nextRes, h, Res.isOk]
+theorem render_one (b : Block) : render [b] = blockCells b := by simp [render]
 
-/-- after the fault has cleared: a flush leaves a clean file holding the buffered entries -/
-theorem flushWF_ok_spec (fc : FCfg) (h1 : fc.rollsBackFailedBlock = true) (mk : Mk) (hmk : MkOk mk) (s : FSt)
-    (F junk : List Cell) (hi : DInv s.d s.w F junk) (h : s.rs = []) :
-    ∃ nbs, entsOf nbs = s.w.buf ∧ (∀ b ∈ nbs, b.WF) ∧ (flushWF fc mk s).w.buf = [] ∧ (flushWF fc mk s).w.dirty = false ∧
-      (flushWF fc mk s).rs = [] ∧ WInv (flushWF fc mk s).d (flushWF fc mk s).w (F ++ render nbs) ∧
-      (flushWF fc mk s).w.path = s.w.path := by
-  -- reduce to a clean state
-  have key : ∀ t : FSt, WInv t.d t.w F → t.w.dirty = false → t.rs = [] →
-      ∃ nbs, entsOf nbs = t.w.buf ∧ (∀ b ∈ nbs, b.WF) ∧ (flushWF fc mk t).w.buf = [] ∧ (flushWF fc mk t).w.dirty = false ∧
-        (flushWF fc mk t).rs = [] ∧ WInv (flushWF fc mk t).d (flushWF fc mk t).w (F ++ render nbs) ∧
-        (flushWF fc mk t).w.path = t.w.path := by
-    intro t hw hdt ht
-    obtain ⟨e1, e2, e3, _⟩ := flushWF_nofault fc mk t ht hdt
-    obtain ⟨nbs, he, hbuf, hp⟩ := flushW_spec mk hmk t.d t.w F hw
-    refine ⟨nbs, he, hp.wf, by rw [e1]; exact hbuf, by rw [e1, flushW_dirty]; exact hdt, e3, ?_, by rw [e1]; exact hp.path⟩
-    rw [e1, e2]; exact hp.inv
+theorem lt_succ_mul {a n m : Nat} (hm : 0 < m) (h : a ≤ (n + 1) * m) (hlt : m < a) : a - m ≤ n * m := by
+  rw [Nat.succ_mul] at h; omega
+
+/-- **The block loop of the repaired, splitting flush.**  Every block holds at most `maxEnts`
+    entries (so the encoder's count field is exact: the blocks are well formed); what is not
+    written stays buffered in order; with enough fuel and no fault the buffer ends up empty. -/
+theorem flushBlocks_spec (fc : FCfg) (h1 : fc.rollsBackFailedBlock = true) (h2 : fc.restoresOffsetAfterHeader = true)
+    (h3 : fc.splitsOversizedBuffer = true) (mk : Mk) (hmk : MkOk mk) : ∀ (n : Nat) (s : FSt) (F : List Cell),
+    WInv s.d s.w F → s.w.dirty = false →
+    ∃ nbs junk, entsOf nbs ++ (flushBlocks fc mk n s).w.buf = s.w.buf ∧ FPost s (flushBlocks fc mk n s) F nbs junk ∧
+      (s.rs = [] → s.w.buf.length ≤ n * maxEnts → (flushBlocks fc mk n s).w.buf = [] ∧ (flushBlocks fc mk n s).w.dirty = false) := by
+  intro n
+  induction n with
+  | zero =>
+    intro s F hinv hdirty
+    refine ⟨[], [], by simp [entsOf, flushBlocks], ⟨by simp, by rw [render_nil_append]; exact hinv.toDInv, rfl, rfl,
+      fun h => ⟨h, rfl⟩⟩, ?_⟩
+    intro _ hl
+    simp only [flushBlocks]
+    exact ⟨List.eq_nil_of_length_eq_zero (by omega), hdirty⟩
+  | succ n ih =>
+    intro s F hinv hdirty
+    by_cases hb : s.w.buf = []
+    · have : flushBlocks fc mk (n + 1) s = s := by rw [flushBlocks]; simp [hb]
+      rw [this]
+      exact ⟨[], [], by simp [entsOf], ⟨by simp, by rw [render_nil_append]; exact hinv.toDInv, rfl, rfl,
+        fun h => ⟨h, rfl⟩⟩, fun _ _ => ⟨hb, hdirty⟩⟩
+    by_cases hbig : maxEnts < s.w.buf.length
+    · -- more than one block's worth: the first `maxEnts` entries, then the rest
+      have hstep : flushBlocks fc mk (n + 1) s =
+          if (writeBlockF fc mk s (s.w.buf.take maxEnts) (s.w.buf.drop maxEnts) (s.w.szs.drop maxEnts)).2 then
+            flushBlocks fc mk n (writeBlockF fc mk s (s.w.buf.take maxEnts) (s.w.buf.drop maxEnts) (s.w.szs.drop maxEnts)).1
+          else (writeBlockF fc mk s (s.w.buf.take maxEnts) (s.w.buf.drop maxEnts) (s.w.szs.drop maxEnts)).1 := by
+        rw [flushBlocks]
+        split
+        · rename_i hb'; exact absurd hb' hb
+        · simp [h3, hbig]
+      have hne : s.w.buf.take maxEnts ≠ [] := by
+        intro h
+        have h0 : (s.w.buf.take maxEnts).length = 0 := by rw [h]; rfl
+        rw [List.length_take] at h0
+        have := maxEnts_pos; omega
+      have hlen : (s.w.buf.take maxEnts).length ≤ maxEnts := by simp [List.length_take]; omega
+      obtain ⟨hwf, hents⟩ := hmk _ hne hlen
+      obtain ⟨hp, hnl, hout, hclr⟩ := writeBlockF_spec fc h1 h2 mk s F hinv hdirty (s.w.buf.take maxEnts)
+        (s.w.buf.drop maxEnts) (s.w.szs.drop maxEnts) (List.take_append_drop _ _).symm _ rfl
+      rw [hstep]
+      rcases hout with ⟨hbuf, hdt, hw⟩ | ⟨hgo, hbuf, junk, hj⟩
+      · by_cases hgo : (writeBlockF fc mk s (s.w.buf.take maxEnts) (s.w.buf.drop maxEnts) (s.w.szs.drop maxEnts)).2 = true
+        · rw [if_pos hgo]
+          obtain ⟨nbs, junk, he, hpost, hfin⟩ := ih _ _ hw hdt
+          refine ⟨mk (s.w.buf.take maxEnts) :: nbs, junk, ?_, ⟨?_, ?_, hpost.path.trans hp, hpost.nl.trans hnl, ?_⟩, ?_⟩
+          · rw [show entsOf (mk (s.w.buf.take maxEnts) :: nbs) = (mk (s.w.buf.take maxEnts)).ents ++ entsOf nbs by simp [entsOf]]
+            rw [hents, List.append_assoc, he, hbuf, List.take_append_drop]
+          · intro b hb'
+            rcases List.mem_cons.mp hb' with rfl | hb'
+            · exact hwf
+            · exact hpost.wf b hb'
+          · have := hpost.inv
+            rw [show render (mk (s.w.buf.take maxEnts) :: nbs) = blockCells (mk (s.w.buf.take maxEnts)) ++ render nbs by simp [render]]
+            rw [← List.append_assoc]; exact this
+          · intro hrs
+            obtain ⟨_, hr1, hf1⟩ := hclr hrs
+            obtain ⟨hr2, hf2⟩ := hpost.clear hr1
+            exact ⟨hr2, hf2.trans hf1⟩
+          · intro hrs hl
+            obtain ⟨_, hr1, _⟩ := hclr hrs
+            refine hfin hr1 ?_
+            rw [hbuf, List.length_drop]
+            exact lt_succ_mul maxEnts_pos hl hbig
+        · rw [if_neg hgo]
+          refine ⟨[mk (s.w.buf.take maxEnts)], [], ?_, ⟨?_, ?_, hp, hnl, ?_⟩, ?_⟩
+          · simp only [entsOf, List.flatMap_cons, List.flatMap_nil, List.append_nil]
+            rw [hents, hbuf, List.take_append_drop]
+          · intro b hb'; simp only [List.mem_cons, List.not_mem_nil, or_false] at hb'; subst hb'; exact hwf
+          · rw [render_one]; exact hw.toDInv
+          · intro hrs; exact absurd (hclr hrs).1 hgo
+          · intro hrs; exact absurd (hclr hrs).1 hgo
+      · rw [hgo]
+        simp only [Bool.false_eq_true, if_false]
+        refine ⟨[], junk, ?_, ⟨by simp, ?_, hp, hnl, ?_⟩, ?_⟩
+        · simp only [entsOf, List.flatMap_nil, List.nil_append]; rw [hbuf, List.take_append_drop]
+        · rw [render_nil_append]; exact hj
+        · intro hrs; have := (hclr hrs).1; rw [hgo] at this; cases this
+        · intro hrs; have := (hclr hrs).1; rw [hgo] at this; cases this
+    · -- one block
+      have hstep : flushBlocks fc mk (n + 1) s = (writeBlockF fc mk s s.w.buf [] []).1 := by
+        rw [flushBlocks]
+        split
+        · rename_i hb'; exact absurd hb' hb
+        · simp [hbig]
+      have hlen : s.w.buf.length ≤ maxEnts := Nat.le_of_not_lt hbig
+      obtain ⟨hwf, hents⟩ := hmk _ hb hlen
+      obtain ⟨hp, hnl, hout, hclr⟩ := writeBlockF_spec fc h1 h2 mk s F hinv hdirty s.w.buf [] [] (by simp) _ rfl
+      rw [hstep]
+      rcases hout with ⟨hbuf, hdt, hw⟩ | ⟨hgo, hbuf, junk, hj⟩
+      · refine ⟨[mk s.w.buf], [], ?_, ⟨?_, ?_, hp, hnl, ?_⟩, ?_⟩
+        · simp only [entsOf, List.flatMap_cons, List.flatMap_nil, List.append_nil]; rw [hents, hbuf, List.append_nil]
+        · intro b hb'; simp only [List.mem_cons, List.not_mem_nil, or_false] at hb'; subst hb'; exact hwf
+        · rw [render_one]; exact hw.toDInv
+        · intro hrs; exact (hclr hrs).2
+        · intro _ _; exact ⟨hbuf, hdt⟩
+      · refine ⟨[], junk, ?_, ⟨by simp, ?_, hp, hnl, ?_⟩, ?_⟩
+        · simp only [entsOf, List.flatMap_nil, List.nil_append]; rw [hbuf, List.append_nil]
+        · rw [render_nil_append]; exact hj
+        · intro hrs; have := (hclr hrs).1; rw [hgo] at this; cases this
+        · intro hrs; have := (hclr hrs).1; rw [hgo] at this; cases this
+
+theorem fuel_enough (a : Nat) : a ≤ (a / maxEnts + 1) * maxEnts := by
+  have := Nat.lt_div_mul_add (a := a) maxEnts_pos
+  rw [Nat.succ_mul]; exact Nat.le_of_lt this
+
+/-- **The repaired flush under arbitrary results**, from a state that may still carry a fragment -/
+theorem flushWF_spec (fc : FCfg) (h1 : fc.rollsBackFailedBlock = true) (h2 : fc.restoresOffsetAfterHeader = true)
+    (h3 : fc.splitsOversizedBuffer = true) (mk : Mk) (hmk : MkOk mk) (s : FSt) (F junk : List Cell)
+    (hi : DInv s.d s.w F junk) :
+    ∃ nbs junk', entsOf nbs ++ (flushWF fc mk s).w.buf = s.w.buf ∧ FPost s (flushWF fc mk s) F nbs junk' ∧
+      (s.rs = [] → (flushWF fc mk s).w.buf = [] ∧ (flushWF fc mk s).w.dirty = false) := by
   by_cases hd : s.w.dirty = false
-  · exact key s (hi.toWInv hd) hd h
+  · have : flushWF fc mk s = flushBlocks fc mk (s.w.buf.length / maxEnts + 1) s := by
+      unfold flushWF; simp [hd]
+    rw [this]
+    obtain ⟨nbs, j, he, hp, hfin⟩ := flushBlocks_spec fc h1 h2 h3 mk hmk _ s F (hi.toWInv hd) hd
+    exact ⟨nbs, j, he, hp, fun hrs => hfin hrs (fuel_enough _)⟩
   · have hd' : s.w.dirty = true := by simpa using hd
-    rw [flushWF_dirty_ok fc h1 mk s h hd']
-    have hw : WInv (undirty s).d (undirty s).w F := by
-      refine ⟨?_, hi.atEnd, hi.hdr⟩
-      show (s.d.applyRes (.truncate s.w.path s.w.pos) .ok).get s.w.path = some F
-      rw [hi.atEnd]; exact get_truncate_back s.d s.w.path F junk hi.file
-    exact key (undirty s) hw rfl h
+    by_cases k : (nextRes s.rs).1.isOk = true
+    · -- the fragment is cut off, then the blocks
+      have e := isOk_eq k
+      let t : FSt := { s with d := s.d.applyRes (.truncate s.w.path s.w.pos) .ok,
+                              ops := s.ops ++ [(.truncate s.w.path s.w.pos, .ok)], rs := (nextRes s.rs).2,
+                              w := { s.w with dirty := false } }
+      have : flushWF fc mk s = flushBlocks fc mk (s.w.buf.length / maxEnts + 1) t := by
+        unfold flushWF; simp [h1, hd', issue_eq, e, Res.isOk, t]
+      rw [this]
+      have hw : WInv t.d t.w F := by
+        refine ⟨?_, hi.atEnd, hi.hdr⟩
+        show (s.d.applyRes (.truncate s.w.path s.w.pos) .ok).get s.w.path = some F
+        rw [hi.atEnd]; exact get_truncate_back s.d s.w.path F junk hi.file
+      obtain ⟨nbs, j, he, hp, hfin⟩ := flushBlocks_spec fc h1 h2 h3 mk hmk (s.w.buf.length / maxEnts + 1) t F hw rfl
+      refine ⟨nbs, j, he, ⟨hp.wf, hp.inv, hp.path, hp.nl, ?_⟩, ?_⟩
+      · intro hrs
+        have ht : t.rs = [] := by show (nextRes s.rs).2 = []; rw [hrs]; rfl
+        exact hp.clear ht
+      · intro hrs
+        have ht : t.rs = [] := by show (nextRes s.rs).2 = []; rw [hrs]; rfl
+        exact hfin ht (fuel_enough _)
+    · -- even the retry failed: nothing changes
+      have k' : (nextRes s.rs).1.isOk = false := by simpa using k
+      have : flushWF fc mk s = { s with d := s.d.applyRes (.truncate s.w.path s.w.pos) (nextRes s.rs).1,
+                                         ops := s.ops ++ [(.truncate s.w.path s.w.pos, (nextRes s.rs).1)],
+                                         rs := (nextRes s.rs).2, failed := true } := by
+        unfold flushWF; simp [h1, hd', issue_eq, k']
+      rw [this]
+      refine ⟨[], junk, by simp [entsOf], ⟨by simp, ?_, rfl, rfl, ?_⟩, ?_⟩
+      · rw [render_nil_append]
+        refine ⟨?_, hi.atEnd, hi.hdr, hi.clean⟩
+        show (s.d.applyRes (.truncate s.w.path s.w.pos) (nextRes s.rs).1).get s.w.path = _
+        rw [get_truncate_failed _ _ _ _ k']; exact hi.file
+      · intro hrs; rw [hrs] at k'; simp [nextRes_nil, Res.isOk] at k'
+      · intro hrs; rw [hrs] at k'; simp [nextRes_nil, Res.isOk] at k'
 
-/-- `WriteEntry` after the fault has cleared -/
-theorem addWF_ok_spec (fc : FCfg) (h1 : fc.rollsBackFailedBlock = true) (mk : Mk) (hmk : MkOk mk) (s : FSt)
-    (F junk : List Cell) (hi : DInv s.d s.w F junk) (h : s.rs = []) (e : Op) (sz : Nat) :
-    ∃ nbs junk', entsOf nbs ++ (addWF fc mk s e sz).w.buf = s.w.buf ++ [e] ∧ (∀ b ∈ nbs, b.WF) ∧
-      (addWF fc mk s e sz).rs = [] ∧ DInv (addWF fc mk s e sz).d (addWF fc mk s e sz).w (F ++ render nbs) junk' ∧
-      (addWF fc mk s e sz).w.path = s.w.path := by
+/-- **No block of the repaired flush can carry a wrapped count**: every block it puts on disk,
+    whatever the results and however long the buffer has grown, holds at most `maxEnts` entries
+    and its `EntryCount` field is their exact number. -/
+theorem flush_chunks_bounded (fc : FCfg) (h1 : fc.rollsBackFailedBlock = true) (h2 : fc.restoresOffsetAfterHeader = true)
+    (h3 : fc.splitsOversizedBuffer = true) (mk : Mk) (hmk : MkOk mk) (s : FSt) (F junk : List Cell)
+    (hi : DInv s.d s.w F junk) :
+    ∃ nbs junk', (flushWF fc mk s).d.get s.w.path = some (F ++ render nbs ++ junk') ∧
+      entsOf nbs ++ (flushWF fc mk s).w.buf = s.w.buf ∧
+      ∀ b ∈ nbs, b.ents.length ≤ maxEnts ∧ b.cnt = b.ents.length := by
+  obtain ⟨nbs, j, he, hp, _⟩ := flushWF_spec fc h1 h2 h3 mk hmk s F junk hi
+  refine ⟨nbs, j, by rw [← hp.path]; exact hp.inv.file, he, ?_⟩
+  intro b hb
+  have hw := hp.wf b hb
+  refine ⟨?_, hw.2.2.2⟩
+  have : b.cnt < 65536 := by
+    unfold Block.cnt
+    have a1 : b.hdr.getD 8 0 % 256 < 256 := Nat.mod_lt _ (by decide)
+    have a2 : b.hdr.getD 9 0 % 256 < 256 := Nat.mod_lt _ (by decide)
+    omega
+  rw [← hw.2.2.2]; show b.cnt ≤ 65535; omega
+
+/-- `WriteEntry` of the repaired writer, whatever the results -/
+theorem addWF_spec (fc : FCfg) (h1 : fc.rollsBackFailedBlock = true) (h2 : fc.restoresOffsetAfterHeader = true)
+    (h3 : fc.splitsOversizedBuffer = true) (mk : Mk) (hmk : MkOk mk) (s : FSt) (F junk : List Cell)
+    (hi : DInv s.d s.w F junk) (e : Op) (sz : Nat) :
+    ∃ nbs junk', entsOf nbs ++ (addWF fc mk s e sz).w.buf = s.w.buf ++ [e] ∧ FPost s (addWF fc mk s e sz) F nbs junk' := by
   unfold addWF
   simp only
   split
-  · have hi' : DInv s.d { s.w with buf := s.w.buf ++ [e], bufSize := s.w.bufSize + sz } F junk :=
-      ⟨hi.file, hi.atEnd, hi.hdr, hi.clean⟩
-    obtain ⟨nbs, he, hwf, hbuf, hdt, hrs, hw, hp⟩ := flushWF_ok_spec fc h1 mk hmk
-      { s with w := { s.w with buf := s.w.buf ++ [e], bufSize := s.w.bufSize + sz } } F junk hi' h
-    refine ⟨nbs, [], by rw [hbuf, he]; simp, hwf, hrs, ?_, hp⟩
-    exact ⟨by simpa using hw.file, hw.atEnd, hw.hdr, fun _ => rfl⟩
-  · exact ⟨[], junk, by simp [entsOf], by simp, h, by
-      rw [render_nil_append]; exact ⟨hi.file, hi.atEnd, hi.hdr, hi.clean⟩, rfl⟩
+  · have hi' : DInv s.d (s.w.push e sz) F junk := ⟨hi.file, hi.atEnd, hi.hdr, hi.clean⟩
+    obtain ⟨nbs, j, he, hp, _⟩ := flushWF_spec fc h1 h2 h3 mk hmk { s with w := s.w.push e sz } F junk hi'
+    exact ⟨nbs, j, he, ⟨hp.wf, hp.inv, hp.path, hp.nl, hp.clear⟩⟩
+  · exact ⟨[], junk, by simp [entsOf, WSt.push], ⟨by simp, by
+      rw [render_nil_append]; exact ⟨hi.file, hi.atEnd, hi.hdr, hi.clean⟩, rfl, rfl, fun h => ⟨h, rfl⟩⟩⟩
 
-theorem addManyWF_ok_spec (fc : FCfg) (h1 : fc.rollsBackFailedBlock = true) (mk : Mk) (hmk : MkOk mk)
-    (items : List (Op × Nat)) : ∀ (s : FSt) (F junk : List Cell), DInv s.d s.w F junk → s.rs = [] →
+theorem addManyWF_spec (fc : FCfg) (h1 : fc.rollsBackFailedBlock = true) (h2 : fc.restoresOffsetAfterHeader = true)
+    (h3 : fc.splitsOversizedBuffer = true) (mk : Mk) (hmk : MkOk mk)
+    (items : List (Op × Nat)) : ∀ (s : FSt) (F junk : List Cell), DInv s.d s.w F junk →
     ∃ nbs junk', entsOf nbs ++ (addManyWF fc mk s items).w.buf = s.w.buf ++ items.map (·.1) ∧ (∀ b ∈ nbs, b.WF) ∧
-      (addManyWF fc mk s items).rs = [] ∧
       DInv (addManyWF fc mk s items).d (addManyWF fc mk s items).w (F ++ render nbs) junk' ∧
-      (addManyWF fc mk s items).w.path = s.w.path := by
+      (addManyWF fc mk s items).w.path = s.w.path ∧ (addManyWF fc mk s items).w.nl = s.w.nl ∧
+      (s.rs = [] → (addManyWF fc mk s items).rs = []) := by
   induction items with
-  | nil => intro s F junk hi h; exact ⟨[], junk, by simp [entsOf, addManyWF], by simp, h, by
-      rw [render_nil_append]; exact hi, rfl⟩
+  | nil => intro s F junk hi; exact ⟨[], junk, by simp [entsOf, addManyWF], by simp, by
+      rw [render_nil_append]; exact hi, rfl, rfl, fun h => h⟩
   | cons it rest ih =>
-    intro s F junk hi h
+    intro s F junk hi
     obtain ⟨e, sz⟩ := it
-    obtain ⟨a, j1, ha, hwa, hra, hia, hpa⟩ := addWF_ok_spec fc h1 mk hmk s F junk hi h e sz
-    obtain ⟨b, j2, hb, hwb, hrb, hib, hpb⟩ := ih { addWF fc mk s e sz with failed := false } _ j1 hia hra
-    refine ⟨a ++ b, j2, ?_, ?_, hrb, ?_, by simp only [addManyWF]; rw [hpb]; exact hpa⟩
+    obtain ⟨a, j1, ha, pa⟩ := addWF_spec fc h1 h2 h3 mk hmk s F junk hi e sz
+    obtain ⟨b, j2, hb, hwb, hib, hpb, hnb, hrb⟩ := ih { addWF fc mk s e sz with failed := false } _ j1 pa.inv
+    refine ⟨a ++ b, j2, ?_, ?_, ?_, by simp only [addManyWF]; rw [hpb]; exact pa.path,
+      by simp only [addManyWF]; rw [hnb]; exact pa.nl, ?_⟩
     · simp only [addManyWF, entsOf_append, List.map_cons, List.append_assoc]
       rw [hb, ← List.append_assoc, ha]; simp
     · intro x hx
       rcases List.mem_append.mp hx with hx | hx
-      · exact hwa x hx
+      · exact pa.wf x hx
       · exact hwb x hx
     · simp only [addManyWF]
       rw [render_append, ← List.append_assoc]; exact hib
+    · intro hrs; simp only [addManyWF]; exact hrb (pa.clear hrs).1
 
 /-- `Sync` after the fault has cleared: the file is clean and holds everything -/
-theorem syncWF_ok_spec (c : Cfg) (fc : FCfg) (h1 : fc.rollsBackFailedBlock = true) (mk : Mk) (hmk : MkOk mk) (s : FSt)
+theorem syncWF_ok_spec (c : Cfg) (fc : FCfg) (h1 : fc.rollsBackFailedBlock = true) (h2 : fc.restoresOffsetAfterHeader = true)
+    (h3 : fc.splitsOversizedBuffer = true) (mk : Mk) (hmk : MkOk mk) (s : FSt)
     (F junk : List Cell) (hi : DInv s.d s.w F junk) (h : s.rs = []) :
     ∃ nbs, entsOf nbs = s.w.buf ∧ (∀ b ∈ nbs, b.WF) ∧ (syncWF c fc mk s).d.get s.w.path = some (F ++ render nbs) := by
-  obtain ⟨nbs, he, hwf, _, _, hrs, hw, hp⟩ := flushWF_ok_spec fc h1 mk hmk { s with failed := false } F junk
-    ⟨hi.file, hi.atEnd, hi.hdr, hi.clean⟩ h
-  refine ⟨nbs, he, hwf, ?_⟩
-  have hfl : (flushWF fc mk { s with failed := false }).failed = false := by
-    by_cases hd : s.w.dirty = false
-    · exact (flushWF_nofault fc mk { s with failed := false } h hd).2.2.2
-    · have hd' : s.w.dirty = true := by simpa using hd
-      rw [flushWF_dirty_ok fc h1 mk { s with failed := false } h hd']
-      exact (flushWF_nofault fc mk (undirty { s with failed := false }) h rfl).2.2.2
+  obtain ⟨nbs, j, he, hp, hfin⟩ := flushWF_spec fc h1 h2 h3 mk hmk { s with failed := false } F junk
+    ⟨hi.file, hi.atEnd, hi.hdr, hi.clean⟩
+  obtain ⟨hbuf, hdt⟩ := hfin h
+  obtain ⟨hrs, hfl⟩ := hp.clear h
+  have hw := hp.inv.toWInv hdt
+  refine ⟨nbs, by rw [← he, hbuf, List.append_nil], hp.wf, ?_⟩
+  have hfl' : (flushWF fc mk { s with failed := false }).failed = false := hfl
   unfold syncWF
-  simp only [hfl, Bool.false_eq_true, if_false, FSt.issue, hrs, nextRes, Res.isOk, Bool.not_true]
+  simp only [hfl', Bool.false_eq_true, if_false, FSt.issue, hrs, nextRes, Res.isOk, Bool.not_true]
   have hno : ((flushWF fc mk { s with failed := false }).d.applyRes
       (.write (flushWF fc mk { s with failed := false }).w.path 0 (fhCells (flushWF fc mk { s with failed := false }).w.nl)) .ok) =
       (flushWF fc mk { s with failed := false }).d := by
     rw [applyRes_ok]; exact header_rewrite_noop _ _ _ hw
   rw [hno]
   have hfile := hw.file
-  rw [hp] at hfile
+  have hpath : (flushWF fc mk { s with failed := false }).w.path = s.w.path := hp.path
+  rw [hpath] at hfile
   cases c.syncFsyncs
   · simpa using hfile
   · simp only [if_true, applyRes_ok, Disk.apply]; simpa using hfile
 
-/-- **Repaired writer: nothing hidden, nothing dropped — for every result stream.**  With a flush
-    that rolls a failed block back (retrying a failed rollback before the next block) and restores
-    the offset after a failed header rewrite, the full statement holds. -/
+/-- **Repaired writer: nothing hidden, nothing dropped — for every result stream and every
+    buffer length.**  With a flush that rolls a failed block back (retrying a failed rollback
+    before the next block), restores the offset after a failed header rewrite and never puts more
+    than `maxEnts` entries into a block, the full statement holds. -/
 theorem holds_of_repaired (c : Cfg) (fc : FCfg) (h1 : fc.rollsBackFailedBlock = true)
-    (h2 : fc.restoresOffsetAfterHeader = true) : ∀ (mk : Mk), MkOk mk → ∀ (nl : Nat) (bs : List Block), (∀ b ∈ bs, b.WF) →
-    ∀ (w : WSt) (d : Disk), WInv d w (fileCells nl bs) → w.dirty = false → w.buf ≠ [] →
-    ∀ (rs : List Res) (items : List (Op × Nat)),
-      ∃ f, (afterFault c fc mk w d rs items).d.get w.path = some f ∧
-        loadEntries c.r f = entsOf bs ++ w.buf ++ items.map (·.1) := by
-  intro mk hmk nl bs hwf w d hinv hdirty hb rs items
-  have fin : ∀ (s : FSt) (bs1 : List Block) (junk : List Cell), (∀ b ∈ bs1, b.WF) → DInv s.d s.w (fileCells nl bs1) junk →
-      ∃ f, (syncWF c fc mk (addManyWF fc mk (cleared s) items)).d.get s.w.path = some f ∧
-        loadEntries c.r f = entsOf bs1 ++ s.w.buf ++ items.map (·.1) := by
-    intro s bs1 junk hw1 hi
-    obtain ⟨a, j1, ha, hwa, hra, hia, hpa⟩ := addManyWF_ok_spec fc h1 mk hmk items (cleared s) _ junk
-      (⟨hi.file, hi.atEnd, hi.hdr, hi.clean⟩ : DInv (cleared s).d (cleared s).w _ junk) rfl
-    obtain ⟨nbs, hn, hnwf, hget⟩ := syncWF_ok_spec c fc h1 mk hmk _ _ j1 hia hra
-    rw [hpa] at hget
-    refine ⟨_, hget, ?_⟩
-    have hall : ∀ b ∈ bs1 ++ a ++ nbs, b.WF := by
-      intro b hb'
-      rcases List.mem_append.mp hb' with hb' | hb'
-      · rcases List.mem_append.mp hb' with hb' | hb'
-        · exact hw1 b hb'
-        · exact hwa b hb'
-      · exact hnwf b hb'
-    have hfile : fileCells nl bs1 ++ render a ++ render nbs = fileCells nl (bs1 ++ a ++ nbs) := by
-      simp [fileCells, render_append, List.append_assoc]
-    rw [hfile]
-    simp only [loadEntries, loadFile_clean c.r nl _ hall]
-    rw [entsOf_append, entsOf_append, hn, List.append_assoc, List.append_assoc, ha]
-    simp [cleared]
-  have hpath := flushWF_path fc h1 h2 mk w d hdirty hb rs
-  rcases repaired_flush fc h1 h2 mk nl bs w d hinv hdirty hb rs with ⟨hbuf, hdt, hw⟩ | ⟨hbuf, junk, hi⟩
-  · have hwf' : ∀ b ∈ bs ++ [mk w.buf], b.WF := by
-      intro b hb'
-      rcases List.mem_append.mp hb' with hb' | hb'
-      · exact hwf b hb'
-      · simp only [List.mem_cons, List.not_mem_nil, or_false] at hb'; subst hb'; exact (hmk w.buf hb).1
-    obtain ⟨f, hf, hl⟩ := fin _ _ [] hwf' ⟨by simpa using hw.file, hw.atEnd, hw.hdr, fun _ => rfl⟩
-    rw [hpath] at hf
-    refine ⟨f, hf, ?_⟩
-    rw [hl, hbuf, entsOf_append]
-    simp [entsOf, (hmk w.buf hb).2]
-  · obtain ⟨f, hf, hl⟩ := fin _ _ junk hwf hi
-    rw [hpath] at hf
-    exact ⟨f, hf, by rw [hl, hbuf]⟩
+    (h2 : fc.restoresOffsetAfterHeader = true) (h3 : fc.splitsOversizedBuffer = true) : Holds c fc := by
+  intro mk hmk nl bs hwf w d hinv _ hdirty rs during after
+  obtain ⟨n1, j1, e1, p1, _⟩ := flushWF_spec fc h1 h2 h3 mk hmk { w := w, d := d, rs := rs } _ [] hinv.toDInv
+  obtain ⟨n2, j2, e2, w2, i2, q2, _, _⟩ := addManyWF_spec fc h1 h2 h3 mk hmk during _ _ j1 p1.inv
+  obtain ⟨n3, j3, e3, w3, i3, q3, _, r3⟩ := addManyWF_spec fc h1 h2 h3 mk hmk after
+    (cleared (addManyWF fc mk (flushWF fc mk { w := w, d := d, rs := rs }) during)) _ j2
+    (⟨i2.file, i2.atEnd, i2.hdr, i2.clean⟩ : DInv (cleared _).d (cleared _).w _ j2)
+  obtain ⟨n4, e4, w4, hget⟩ := syncWF_ok_spec c fc h1 h2 h3 mk hmk _ _ j3 i3 (r3 rfl)
+  have hpath : (addManyWF fc mk (cleared (addManyWF fc mk (flushWF fc mk { w := w, d := d, rs := rs }) during)) after).w.path = w.path := by
+    rw [q3]; show (addManyWF fc mk (flushWF fc mk { w := w, d := d, rs := rs }) during).w.path = w.path
+    rw [q2]; exact p1.path
+  rw [hpath] at hget
+  refine ⟨_, hget, ?_⟩
+  have hall : ∀ b ∈ bs ++ n1 ++ n2 ++ n3 ++ n4, b.WF := by
+    intro b hb
+    simp only [List.mem_append] at hb
+    rcases hb with (((hb | hb) | hb) | hb) | hb
+    · exact hwf b hb
+    · exact p1.wf b hb
+    · exact w2 b hb
+    · exact w3 b hb
+    · exact w4 b hb
+  have hfile : fileCells nl bs ++ render n1 ++ render n2 ++ render n3 ++ render n4 = fileCells nl (bs ++ n1 ++ n2 ++ n3 ++ n4) := by
+    simp [fileCells, render_append, List.append_assoc]
+  rw [hfile]
+  simp only [loadEntries, loadFile_clean c.r nl _ hall]
+  simp only [entsOf_append]
+  have e3' : entsOf n3 ++ (addManyWF fc mk (cleared (addManyWF fc mk (flushWF fc mk { w := w, d := d, rs := rs }) during)) after).w.buf =
+      (addManyWF fc mk (flushWF fc mk { w := w, d := d, rs := rs }) during).w.buf ++ after.map (·.1) := e3
+  have e1' : entsOf n1 ++ (flushWF fc mk { w := w, d := d, rs := rs }).w.buf = w.buf := e1
+  rw [e4, List.append_assoc (entsOf bs ++ entsOf n1 ++ entsOf n2), e3', ← List.append_assoc,
+    List.append_assoc (entsOf bs ++ entsOf n1), e2, ← List.append_assoc, List.append_assoc (entsOf bs), e1']
+
+/-! ### The flush that hands the whole buffer to one block -/
+
+/-- **An oversized buffer makes the file unreadable.**  A flush that rolls back and re-buffers
+    (so the buffer can grow past the 16-bit count across failed flushes) but hands the whole
+    buffer to `CompressEntries` writes, once the fault has cleared, a block whose `EntryCount`
+    has wrapped; the reader rejects it and with it every record of the file — those that were
+    durable before the fault included.  Closed witness: 100 … no fault needed at all once the
+    buffer is that long: one durable block, 65536 buffered entries, every operation succeeds. -/
+theorem oversized_block_unreadable (c : Cfg) (fc : FCfg) (h3 : fc.splitsOversizedBuffer = false) : ¬ Holds c fc := by
+  intro hh
+  let mk0 : Mk := mkP 1
+  have hmk : MkOk mk0 := mkP_ok 1 Nat.one_pos
+  let b0 : Block := mk0 [Op.put 9 9]
+  have hb0 : b0.WF := (hmk _ (by simp) (by decide)).1
+  have hwf : ∀ b ∈ [b0], b.WF := by intro b hb; simp only [List.mem_cons, List.not_mem_nil, or_false] at hb; subst hb; exact hb0
+  -- the buffer a long outage leaves behind
+  obtain ⟨es, hes⟩ : ∃ es : List Op, es = List.replicate 65536 (Op.put 1 1) := ⟨_, rfl⟩
+  have hlen : es.length = 65536 := by rw [hes, List.length_replicate]
+  have hne : es ≠ [] := by intro h; rw [h] at hlen; simp at hlen
+  let F := fileCells 0 [b0]
+  let w : WSt := { path := .main, pos := F.length, nl := 0, buf := es, bufSize := 0, bs := 100 }
+  let d : Disk := { main := some F, temp := none }
+  have hinv : WInv d w F := ⟨rfl, rfl, fileCells_hdr 0 [b0]⟩
+  obtain ⟨f, hget, hload⟩ := hh mk0 hmk 0 [b0] hwf w d hinv rfl rfl [] [] []
+  -- no fault: the flush is the plain flush, one block for the whole buffer
+  have hfl := flushWF_nofault fc mk0 { w := w, d := d, rs := [] } rfl rfl (Or.inl h3)
+  obtain ⟨hw1, _⟩ := flushW_inv mk0 d w F hinv hne
+  have hbuf1 : (flushW mk0 w).1.buf = [] := by rw [flushW_cons mk0 w hne]
+  have hpath1 : (flushW mk0 w).1.path = .main := by rw [flushW_cons mk0 w hne]
+  have hnil : ∀ t : FSt, addManyWF fc mk0 t [] = t := fun _ => rfl
+  have hsync := syncWF_nofault_disk c fc mk0 (cleared (flushWF fc mk0 { w := w, d := d, rs := [] })) rfl
+    (by show (flushWF fc mk0 { w := w, d := d, rs := [] }).w.dirty = false; rw [hfl.1, flushW_dirty])
+    (Or.inl h3)
+  simp only [afterFault, hnil] at hget
+  rw [hsync] at hget
+  have hcl : (cleared (flushWF fc mk0 { w := w, d := d, rs := [] })).d = d.applyAll (flushW mk0 w).2 := hfl.2.1
+  have hcw : (cleared (flushWF fc mk0 { w := w, d := d, rs := [] })).w = (flushW mk0 w).1 := hfl.1
+  rw [hcl, hcw] at hget
+  have hfin := syncW_empty c mk0 _ _ _ hw1 hbuf1
+  rw [hpath1] at hfin
+  have hwp : w.path = .main := rfl
+  rw [hwp, hfin] at hget
+  cases hget
+  -- the reader rejects the block, and with it the durable one in front of it
+  have hbad := loadFile_badcnt c.r 0 [b0] hwf (mk0 es) rfl (by simp [le32, mk0, mkP])
+    (mkP_wraps 1 es (by rw [hlen]; decide))
+  have hwb : w.buf = es := rfl
+  simp only [loadEntries, F, hbad, hwb] at hload
+  have := congrArg List.length hload
+  simp [entsOf, hlen] at this
 
 /-- Non-vacuity: the hypotheses of `Holds` are met by the state after a real flush. -/
 example : ∃ (w : WSt) (d : Disk), WInv d w (fileCells 0 []) ∧ w.buf ≠ [] :=
@@ -405,10 +597,14 @@ example : ∃ (w : WSt) (d : Disk), WInv d w (fileCells 0 []) ∧ w.buf ≠ [] :
 structure Facts where
   /-- `WriteBuffer.Flush` empties the buffer, and flushLocked calls it before the first write -/
   clearsBufferBeforeWrite : Tri
-  /-- flushLocked cuts a failed block off again (repair; not in the tree) -/
+  /-- flushLocked cuts a failed block off again and puts its entries back into the buffer -/
   rollsBackFailedBlock : Tri
-  /-- flushLocked restores the offset when the header rewrite fails (repair; not in the tree) -/
+  /-- flushLocked restores the offset when the header rewrite fails -/
   restoresOffsetAfterHeader : Tri
+  /-- flushLocked writes at most `math.MaxUint16` entries per block and goes on with the rest -/
+  splitsOversizedBuffer : Tri
+  /-- `WriteBuffer.Add` / `ShouldFlush` report full at `math.MaxUint16` entries -/
+  flushesAtCountBound : Tri
   /-- chronicler.Write logs a WriteEntry error and goes on with the next entry -/
   writeErrorsSkipped : Tri
   /-- fileWriterHandler only logs a Sync error -/
@@ -420,6 +616,15 @@ structure Facts where
   truncatesTornTail : Tri
   shortHeaderIsEOF : Tri
   tornDataIsEOF : Tri
+  /-- Compact / CompactFromIndex give up (temp removed, no rename) when closing the temp fails -/
+  closeErrorAborts : Tri
+  /-- the reader assumptions of the model (established by C04): a payload that is not the one
+      written fails the checksum; the decoded length and the entry count are checked -/
+  validatesCrc : Tri
+  crcBeforeDecompress : Tri
+  validatesULen : Tri
+  boundsDecodedLen : Tri
+  parseConsumesAll : Tri
   deriving Repr
 
 def cfgOf (f : Facts) : Cfg :=
@@ -429,13 +634,20 @@ def cfgOf (f : Facts) : Cfg :=
     loadCleansTemp := true, rmTempLocked := true, rmTempFromIndex := true, rmTempCompactor := true }
 
 def fcOf (f : Facts) : FCfg :=
-  ⟨f.clearsBufferBeforeWrite.isYes, f.rollsBackFailedBlock.isYes, f.restoresOffsetAfterHeader.isYes⟩
+  ⟨f.clearsBufferBeforeWrite.isYes, f.rollsBackFailedBlock.isYes, f.restoresOffsetAfterHeader.isYes,
+   f.splitsOversizedBuffer.isYes⟩
+
+/-- the reader of the model is the reader of the code: checksum, decoded length and entry count
+    are validated (`readBlocks` rejects anything but the payload written, and a wrapped count) -/
+def readerApplies (f : Facts) : Bool :=
+  f.validatesCrc.isYes && f.validatesULen.isYes && f.parseConsumesAll.isYes
 
 def modelApplies (f : Facts) : Bool :=
   f.flushOrderCanonical.isYes && f.writeErrorsSkipped.isYes && f.syncErrorLogged.isYes && f.syncFsyncs.isYes &&
   f.closeFsyncs.isYes && f.opensExistingForAppend.isYes && f.shortHeaderIsEOF != .unknown && f.tornDataIsEOF != .unknown &&
   f.truncatesTornTail != .unknown && f.clearsBufferBeforeWrite != .unknown && f.rollsBackFailedBlock != .unknown &&
-  f.restoresOffsetAfterHeader != .unknown
+  f.restoresOffsetAfterHeader != .unknown && f.splitsOversizedBuffer != .unknown && f.flushesAtCountBound.isYes &&
+  f.closeErrorAborts.isYes && readerApplies f
 
 /-- the defects the current failure handling exposes (each reproduced by the correspondence run;
     `failed_write_drops_entries` is the kernel-checked witness that refutes `Holds`) -/
@@ -445,21 +657,22 @@ def currentFindings (f : Facts) : List String :=
   (if f.truncatesTornTail.isYes then [] else ["C25-failed-create-bricks-swamp"])
 
 def classify (f : Facts) : Verdict :=
-  if !modelApplies f then .undetermined "a failure-handling fact was not recognised (the model does not describe this code)"
-  else if f.rollsBackFailedBlock.isYes && f.restoresOffsetAfterHeader.isYes then .holds
+  if !modelApplies f then .undetermined "a failure-handling or block-reader fact was not recognised (the model does not describe this code)"
+  else if !f.splitsOversizedBuffer.isYes && f.rollsBackFailedBlock.isYes then
+    .violated ["C25-restored-buffer-overflows-entry-count"]
+  else if f.rollsBackFailedBlock.isYes && f.restoresOffsetAfterHeader.isYes && f.splitsOversizedBuffer.isYes then .holds
   else if f.clearsBufferBeforeWrite.isYes && !f.rollsBackFailedBlock.isYes then .violated (currentFindings f)
   else .undetermined "no theorem for this combination of failure-handling facts"
 
 /-- what is proved whatever the facts: the repaired flush is safe -/
 def Partial (c : Cfg) (fc : FCfg) : Prop :=
-  fc.rollsBackFailedBlock = true → fc.restoresOffsetAfterHeader = true → Holds c fc
+  fc.rollsBackFailedBlock = true → fc.restoresOffsetAfterHeader = true → fc.splitsOversizedBuffer = true → Holds c fc
 
 theorem holds_repaired (c : Cfg) (fc : FCfg) (h1 : fc.rollsBackFailedBlock = true)
-    (h2 : fc.restoresOffsetAfterHeader = true) : Holds c fc :=
-  fun mk hmk nl bs hwf w d hinv _ hdirty hb rs items _ =>
-    holds_of_repaired c fc h1 h2 mk hmk nl bs hwf w d hinv hdirty hb rs items
+    (h2 : fc.restoresOffsetAfterHeader = true) (h3 : fc.splitsOversizedBuffer = true) : Holds c fc :=
+  holds_of_repaired c fc h1 h2 h3
 
-theorem C25_partial (c : Cfg) (fc : FCfg) : Partial c fc := fun h1 h2 => holds_repaired c fc h1 h2
+theorem C25_partial (c : Cfg) (fc : FCfg) : Partial c fc := fun h1 h2 h3 => holds_repaired c fc h1 h2 h3
 
 theorem classify_sound (f : Facts) : (classify f).Sound (Holds (cfgOf f) (fcOf f)) (Partial (cfgOf f) (fcOf f)) := by
   unfold classify
@@ -467,12 +680,16 @@ theorem classify_sound (f : Facts) : (classify f).Sound (Holds (cfgOf f) (fcOf f
   · trivial
   · split
     · rename_i h
-      simp only [Bool.and_eq_true] at h
-      exact holds_repaired _ _ h.1 h.2
+      simp only [Bool.and_eq_true, Bool.not_eq_true'] at h
+      exact ⟨oversized_block_unreadable (cfgOf f) (fcOf f) h.1, C25_partial _ _⟩
     · split
       · rename_i h
-        simp only [Bool.and_eq_true, Bool.not_eq_true'] at h
-        exact ⟨failed_write_drops_entries (cfgOf f) (fcOf f) h.1 h.2, C25_partial _ _⟩
-      · trivial
+        simp only [Bool.and_eq_true] at h
+        exact holds_repaired _ _ h.1.1 h.1.2 h.2
+      · split
+        · rename_i h
+          simp only [Bool.and_eq_true, Bool.not_eq_true'] at h
+          exact ⟨failed_write_drops_entries (cfgOf f) (fcOf f) h.1 h.2, C25_partial _ _⟩
+        · trivial
 
 end Hv.C25
